@@ -6,14 +6,25 @@ from pipeline import run_pipeline
 TIERS = {
     # *_q / *_t: every reader matched to its peer writer only; *_qx / *_tx: matching configurations in which a writer
     # EntityId is known to several local readers (fan-out of writer submessages without reader id)
-    "quick": dict(mc=[("MC_SecGate_q.cfg", 8), ("MC_SecGate_qx.cfg", 8)], replay_limit=32000, random=dict(runs=400, events=40)),
-    "thorough": dict(mc=[("MC_SecGate_t.cfg", 12), ("MC_SecGate_tx.cfg", 12)], replay_limit=330000, random=dict(runs=6000, events=60)),
+    # *_qf / *_tf: shapes of DATA / DATAFRAG (serialized data, serialized key, inline QoS only, both flags, nothing);
+    # *_qg / *_tg: governance documents that differ in the DOMAIN rule's discovery / liveliness protection kinds, with
+    # the builtin secure endpoints whose submessage protection they decide
+    "quick": dict(mc=[("MC_SecGate_q.cfg", 8), ("MC_SecGate_qx.cfg", 8), ("MC_SecGate_qf.cfg", 8), ("MC_SecGate_qg.cfg", 8)],
+                  replay_limit=56000, random=dict(runs=400, events=40)),
+    "thorough": dict(mc=[("MC_SecGate_t.cfg", 12), ("MC_SecGate_tx.cfg", 12), ("MC_SecGate_tf.cfg", 12), ("MC_SecGate_tg.cfg", 12)],
+                     replay_limit=440000, random=dict(runs=6000, events=60)),
 }
 ASSUME = [
     "datagram model bounded by the constants in spec/MC_SecGate_*.cfg (destinations, kinds, governance documents, "
     "positions per datagram); the receiver state is reset per datagram (MessageReceiver::reset), so one datagram is one behaviour",
     "governance fixtures fixtures/gate/governance_rtps{N,S,E}.p7s: topics T_<metadata><data> with kinds NONE/ENCRYPT/SIGN, "
-    "rtps_protection_kind NONE/SIGN/ENCRYPT; origin-authentication kinds not exercised",
+    "rtps_protection_kind NONE/SIGN/ENCRYPT (discovery = liveliness = ENCRYPT), and governance_<rtps><discovery><liveliness>.p7s "
+    "(rtps N/E, discovery and liveliness N/S/E): the domain-level kinds decide the submessage protection of the builtin secure "
+    "endpoints DCPSParticipantMessageSecure (liveliness) and DCPSParticipantSecure / DCPSPublicationsSecure / "
+    "DCPSSubscriptionsSecure (discovery); origin-authentication kinds not exercised",
+    "DATA / DATAFRAG shapes: serialized data, serialized key (K flag), inline QoS only (key hash + status info), both flags, "
+    "nothing; payload protection is demanded of every SerializedPayload element (data or key); a DATA without payload has "
+    "nothing the payload protection could cover and is left unconstrained for payload-protected readers",
     "the peer is the participant itself registered as its own remote (as SecureDiscovery::new does); correctly protected "
     "traffic is produced with the plugin's own encode operations; cryptographic soundness (mixed prefix/body/postfix of "
     "different submessages do not decode) is C16's subject and only relied upon for the non-vacuity counts",
